@@ -465,7 +465,7 @@ def gen_ref_amount(rng, total=None):
     if k < 0.62:
         return ("rem", rng.choice(["remaining", "remainder", "rest", "left over", "Left  Over", "REST", "leftover"]), rng.choice(["", " of", " of the"]))
     if k < 0.76:
-        return ("prop", rng.choice([Fraction(1, 2), Fraction(1, 3), Fraction(2, 2), 0.5, 1.0, 1, Fraction(3, 4), 0.25, 0.9999999999, 1.0000000001,
+        return ("prop", rng.choice([Fraction(1, 2), Fraction(1, 3), Fraction(2, 2), 0.5, 1.0, 1, Fraction(3, 4), 0.25, 0.9999999999, 1.0000000001, 2, 3, Fraction(3, 2),
                                     Fraction(99999999999, 100000000000)]), rng.choice([" of", " of the", "  OF"]))
     if k < 0.9:
         return ("pct", rng.choice([50, 100, 25, 100.0, 12.5, Fraction(100, 3), Fraction(200, 2), 99.99999999, 100.00000001]), rng.choice(["%", " %", "% of", "% of the", " %  of"]))
@@ -591,6 +591,26 @@ CORPUS = [
     # a titled link inside a chain used once by the full quantity (folded through the title)
     [[([("filling",)], True, ("step", ("slice",), [_leaf("spam", ("qty", 100, "g", "", ""))])), ([("meat",)], False, ("step", ("fry",), [_leaf("filling")])),
       (None, False, ("step", ("boil",), [_leaf("meat", ("qty", 100, "g", "", "")), _leaf("water")]))]],
+    # proportions above one written with a preposition ('2 of the egg wash'): proportions, not quantities - never scaled
+    [[([("egg wash",)], False, ("step", ("beat",), [_leaf("egg", ("qty", 1, None, "", "")), _leaf("milk")])),
+      (None, False, ("step", ("brush",), [_leaf("egg wash", ("prop", 2, " of the")), _leaf("pastry")])),
+      (None, False, ("step", ("glaze",), [_leaf("egg wash", ("prop", 3, " of")), _leaf("buns")]))]],
+    # whole numbers beyond 2^53 as a quantity and inside a description: read exactly
+    [[(None, False, _leaf("rice grains", ("qty", 9007199254740993, None, "", ""))),
+      (None, False, ("step", ("count ", 10000000000000001, " times"), [_leaf("rice grains"), _leaf("flour", ("qty", 18014398509481985, "g", " ", ""))]))]],
+    # used whole once in its own block and mentioned again, by another amount, in a later block (never folded); the titled variant
+    [[([("sauce",)], False, ("step", ("boil",), [_leaf("tomatoes", ("qty", 400, "g", "", ""))])), (None, False, ("step", ("pour",), [_leaf("sauce"), _leaf("pasta")]))],
+     [(None, False, ("step", ("dip",), [_leaf("sauce", ("qty", 2, "tbsp", " ", " of")), _leaf("bread")]))]],
+    [[([("sauce",)], True, ("step", ("boil",), [_leaf("tomatoes", ("qty", 400, "g", "", ""))])), (None, False, ("step", ("pour",), [_leaf("sauce"), _leaf("pasta")]))],
+     [(None, False, ("step", ("dip",), [_leaf("sauce"), _leaf("bread")]))]],
+    # names that differ only in punctuation are different names
+    [[([("salt & pepper",)], False, ("step", ("grind",), [_leaf("peppercorns")])), (None, False, ("step", ("season",), [_leaf("salt & pepper"), _leaf("salt # pepper"), _leaf("salt pepper")]))]],
+    [[([("50% \"rye\"",)], False, ("step", ("mix",), [_leaf("rye flour")])), (None, False, ("step", ("shape",), [_leaf("50% \"rye\""), _leaf("50 'rye'"), _leaf("50-rye")]))]],
+    # adjacent literals separated by several blanks / a tab are part of the name as written
+    [[([("white  sauce",)], False, ("step", ("whisk",), [_leaf("milk")])), (None, False, ("step", ("pour",), [_leaf("white sauce"), _leaf("white  sauce")]))]],
+    # output names of one statement equal up to letter case / padding (a redefinition)
+    [[([("Stock",), ("stock ",)], False, ("step", ("boil",), [_leaf("bones")])), (None, False, ("step", ("sip",), [_leaf("stock")]))]],
+    [[([("a",), ("B",), ("A",)], True, ("step", ("split",), [_leaf("x")]))]],
     # a step with the same input written several times, after a fold elsewhere in the description
     [[(None, False, _leaf("onion", ("qty", 1, None, "", ""))), ([("sauce",)], False, ("step", ("fry",), [("step", ("chop",), [_leaf("onion")]), _leaf("tomatoes", ("qty", 400, "g", "", ""))])),
       (None, False, ("step", ("layer",), [_leaf("pasta sheets", ("qty", 3, None, "", "")), _leaf("sauce", ("prop", Fraction(1, 3), " of the")), _leaf("pasta sheets", ("qty", 3, None, "", "")),
